@@ -61,9 +61,9 @@ Proof. exact err_matrix. Qed.
 Print Assumptions C18_err_matrix.
 
 (* handles: a proxy received for a C++ object designates that object at every inheritance level ... *)
-Theorem C18_handle_same_object : forall classes h m cls o, protocol classes ginit (h ++ [Receive m cls o]) = true ->
-  exists l, In (m, l) (g_mobjs (run classes (h ++ [Receive m cls o]))) /\ l <> [] /\
-    forall a, In a l -> exists c, In c (g_cells (run classes (h ++ [Receive m cls o]))) /\ c_addr c = a /\ c_obj c = o.
+Theorem C18_handle_same_object : forall classes h m cls o v, protocol classes ginit (h ++ [Receive m cls o v]) = true ->
+  exists l, In (m, l) (g_mobjs (run classes (h ++ [Receive m cls o v]))) /\ l <> [] /\
+    forall a, In a l -> exists c, In c (g_cells (run classes (h ++ [Receive m cls o v]))) /\ c_addr c = a /\ c_obj c = o.
 Proof. exact receive_same_object. Qed.
 Print Assumptions C18_handle_same_object.
 (* ... and the object is alive exactly as long as some proxy holds a cell for it *)
